@@ -16,7 +16,7 @@ for id in $ids; do
 import json,re
 m=json.load(open('/verif/seeded/$id/meta.json'))
 cs=[]
-for c in m['caught_by']:
+for c in m['caught_by_quick_checks']:
     for x in re.findall(r'C\d\d', c.split('(')[0]):
         if x not in cs: cs.append(x)
 print(' '.join(cs))")
